@@ -86,7 +86,7 @@ var f6Templates = []f6tpl{
 	{"nil-pointer-deref", []string{"field-read", "field-write", "method-value-recv", "deref"}, "type T_§ struct {\n\tA int\n}\n\nfunc (t T_§) V() int {\n\treturn t.A\n}\n", "\tvar p *T_§\n\tprintln(p == nil)\nNILDEREF\n\tprintln(\"not reached\")\n"},
 	{"integer-divide-by-zero-forms", []string{"_ = x / y", "_ = x % y", "x /= y", "x %= y"}, "", "\tx, y := 5, 0\n\t¤\n\tprintln(\"not reached\", x)\n"},
 	{"array-index-out-of-range", []string{"a[i]", "a[i] = 1", "p[i]", "s[i]", "s[i] = 1", "s[i]++"}, "", "\ta := [3]int{}\n\tp := &a\n\ts := a[:2]\n\ti := 3\n\t_, _, _ = a, p, s\n\tSTMT\n\tprintln(\"not reached\")\n"},
-	{"slice3-bounds", []string{"s[1:2:3]", "s[0:0:0]", "s[2+i:1:3]", "s[1:4+i:3]", "s[1:2:5+i]", "a[1:2:4]", "a[:5+i]"}, "", "\ta := [4]int{1, 2, 3, 4}\n\ts := a[:3]\n\ti := 0\n\t_ = i\n\tr := ¤\n\tprintln(len(r), cap(r))\n"},
+	{"slice3-bounds", []string{"s[1:2:3]", "s[0:0:0]", "s[2+i:1:3]", "s[1:4+i:3]", "s[1:2:5+i]", "a[1:2:4]", "a[:5+i]"}, "", "\ta := [4]int{1, 2, 3, 4}\n\ts := a[:3]\n\ti := 0\n\t_, _ = i, s\n\tr := ¤\n\tprintln(len(r), cap(r))\n"},
 	{"make-slice-bad-size", []string{"make([]int, n)", "make([]int, 1, n)", "make([]int, 5, m)"}, "", "\tn, m := -1, 2\n\t_, _ = n, m\n\ts := ¤\n\tprintln(len(s))\n"},
 	{"copy-overlap-and-string", nil, "", "\ts := []int{1, 2, 3, 4, 5}\n\tn := copy(s[1:], s)\n\tb := make([]byte, 3)\n\tk := copy(b, \"héllo\")\n\tprintln(n, s[0], s[1], s[4], k, b[1], b[2])\n"},
 	{"append-growth-aliasing", nil, "", "\ta := make([]int, 2, 3)\n\tb := append(a, 1)\n\tc := append(a, 2)\n\td := append(c, 3)\n\td[0] = 9\n\tprintln(b[2], c[2], a[0], d[0], len(d), cap(a))\n"},
